@@ -133,7 +133,7 @@ def kinds(case):
 
 
 def run(ctx, out, replay=None):
-    n = 1200 if ctx.quick() else 10000
+    n = 1100 if ctx.quick() else 10000
     out.rule = ("random netlist documents as for C05 (all module kinds and attribute combinations, nets of arity 2-6, "
                 "weights absent / 1 / other): 36% dyadic as drawn, 26% rewritten into an equally valid document on a boundary "
                 "(names null / true / yes / on / off / _ / area / Modules, names that are prefixes of each other, weights 1 / 1.0 "
@@ -143,7 +143,7 @@ def run(ctx, out, replay=None):
                 "accepted ones - bools for numbers, -0.0, `area: {}` on a hard module, repeated members - are netlists like any "
                 "other), 10% with one injected defect (verdict correspondence); plus the catalogue of all near misses on a "
                 "document with every module kind and documents of 9..257 (1001) modules, 9..65 (257) members, 33..101 (1001) "
-                "nets, 9..65 (161) rectangles, names of 32..1000 (4097) characters, 9..33 (101) regions; half of the new "
+                "nets, 9..65 (161) rectangles, names of 32..4097 (8193) characters, 9..33 (101) regions; half of the new "
                 "streams given as the tree, as hand-spelled YAML text (1e3, +2, .5, 0x1F, quoted names) or as a file name, "
                 "15% after other loads / writes in the same process, 8% with the source loaded twice; each is loaded, "
                 "written (twice), reloaded and written again; non-trivial = at least two modules and a net or two "
